@@ -464,7 +464,13 @@ class Ks0Compiler(engines.engine.Engine, CompilerMixin):
             normalized_problem = quantifiers_result.problem
             normalization_results.append(quantifiers_result)
 
-        if normalized_problem.kind.has_disjunctive_conditions():
+        # The problem kind reports a disjunctive condition only for `Or` and
+        # `Implies` nodes, but an `Iff` or a negated conjunction is a
+        # disjunction as well and needs the same normalization.
+        if (
+            normalized_problem.kind.has_disjunctive_conditions()
+            or Ks0Compiler._has_non_literal_conditions(normalized_problem)
+        ):
             disjunction_remover = DisjunctiveConditionsRemover()
             disjunction_remover.skip_checks = True
             disjunction_result = disjunction_remover.compile(
@@ -488,6 +494,27 @@ class Ks0Compiler(engines.engine.Engine, CompilerMixin):
         normalization_results.append(grounding_result)
 
         return normalized_problem, tuple(normalization_results)
+
+    @staticmethod
+    def _has_non_literal_conditions(problem: Problem) -> bool:
+        """Tell whether some goal, precondition or effect condition of the
+        quantifier-free ``problem`` is not a conjunction of literals."""
+        conditions: List[FNode] = list(problem.goals)
+        for action in problem.actions:
+            if isinstance(action, InstantaneousAction):
+                conditions.extend(action.preconditions)
+                conditions.extend(effect.condition for effect in action.effects)
+        for condition in split_all_ands(conditions):
+            atom = condition.arg(0) if condition.is_not() else condition
+            if (
+                atom.is_and()
+                or atom.is_or()
+                or atom.is_not()
+                or atom.is_implies()
+                or atom.is_iff()
+            ):
+                return True
+        return False
 
     @staticmethod
     def _rebuild_possible_initial_states(
